@@ -314,6 +314,29 @@ def run(prog, ctx):
         names = [fl[0] for fl in prog.adts[F]["variants"][0]["fields"]]
         vals = dict(zip(names, e[2]))
         params = [f.local_name(i) for i in range(1, f.argc + 1)]
+        # which parameter is the maximum size and which the current size: at the public constructor's call site the current size
+        # is a constant (the minimum map size) and the maximum derives from the caller's argument; fall back on the names
+        if len(params) == 2:
+            i_max = i_cur = None
+            for g_ in C.fns_of(prog, F):
+                if not (g_.exported or g_.is_pub):
+                    continue
+                sg_ = Sym(prog, g_)
+                for b_, st_ in g_.calls():
+                    if st_.get("callee") == f.id and len(st_["args"]) == 2:
+                        a_ = [sg_.at(b_, "t").operand(x) for x in st_["args"]]
+                        consts_ = [k for k in (0, 1) if a_[k][0] in ("const", "constref") or not sym.contains(a_[k], lambda t: t[0] == "param")]
+                        if len(consts_) == 1:
+                            i_cur, i_max = consts_[0], 1 - consts_[0]
+            if i_max is None:
+                mx = [k for k in (0, 1) if "max" in (params[k] or "")]
+                cu = [k for k in (0, 1) if "cur" in (params[k] or "")]
+                if len(mx) == 1 and len(cu) == 1 and mx != cu:
+                    i_max, i_cur = mx[0], cu[0]
+            if i_max is None:
+                params = []
+            else:
+                params = [params[i_max], params[i_cur]]
         envs = [{params[0]: a, params[1]: c} for a in range(0, 32) for c in range(0, a + 1)] if len(params) == 2 else []
         checks = [("sample_size", lambda env: min(1024, ((1 << max(env[params[0]], 3)) * 3) // 4)),
                   ("lg_max_map_size", lambda env: max(env[params[0]], 3))]
